@@ -78,14 +78,15 @@ Proof. vm_compute. reflexivity. Qed.
 (* ---- markers with properties (Proofs/MarkupPropsProofs.v) ----
    The round trip above, generalised: an open marker carries properties.  Written forms:
    [name k=v k=v ...] and the shorthand [name=v k=v ...] (one blank between properties), values being
-   decimal integers below 2^63, true / false, quoted strings without quote or backslash, bare words.
+   decimal integers below 2^63, decimals d.d (the value is strconv.ParseFloat of the text, as modelled in
+   Num/Decimal.v), true / false, quoted strings without quote or backslash, bare words.
    [open_plain] / [open_short] are such markers as document items; the enclosure specification carries
    the written properties of every marker; the theorem: parsing returns the text, one attribute per
    closed marker with its name, with exactly the typed properties written on its open marker (as the
    property map of the attribute: a later value of a key replaces an earlier one) and the range of the
    text it enclosed.  Excluded by hypothesis: a property named trimwhitespace (it changes the text).
-   Still outside: decimal values (p=1.05: strconv.ParseFloat on the text), self-closing and replacement
-   markers, the character prefix, edge blanks - family markupdoc. *)
+   Still outside: self-closing and replacement markers, the character prefix, edge blanks - family
+   markupdoc. *)
 Require YS.Proofs.MarkupPropsProofs.
 Module P := YS.Proofs.MarkupPropsProofs.
 
@@ -131,3 +132,7 @@ Example C13_properties_example :
      Some [(STR "wave", [(STR "wave", MInt 3); (STR "loud", MBool true); (STR "who", MStr [90; 111; 233]%N); (STR "kind", MStr (STR "big"))], STR "xy");
            (STR "b", [(STR "n", MInt 12)], STR "yz")]%Z.
 Proof. split; vm_compute; reflexivity. Qed.
+
+(* a decimal value meets the hypothesis on values (D15: p=1.05 is 1.05, not 1.5) *)
+Example C13_decimal_value_ok : P.pv_ok (P.PVDec (STR "1") (STR "05")).
+Proof. cbn [P.pv_ok]. repeat split; try discriminate; try reflexivity. Qed.
